@@ -248,8 +248,10 @@ def run(ctx):
                     if len(lens) >= 2 and from_schema:
                         out.append(bb)
             return out
-        # the comparison may sit in bind_insert itself or in a helper it calls with `?`
-        guards = fallible_guards(prog, bi, lambda g, c: (c.fn or '').endswith('Binder::schema') and bool(arity_cmp(g)), ins)
+        # the comparison sits in bind_insert - which is seen with its private helpers spliced in (`self.check_arity(..)?`); a helper shared
+        # with other statements is not followed: "some length comparison somewhere below bind_query" is not this check
+        errs_ = bi.error_exit_blocks()
+        guards = [x for x in arity_cmp(bi) if bi.reachable_from([x], avoid=set(ins)) & errs_]
         ok = bool(ins) and bool(guards) and all(bi.dominated_by_any(set(guards), i) for i in ins)
         if ctx.anchor(R9, 'bind_insert builds Expr::Insert', bool(ins)):
             ctx.ob(R9, 'bind_insert·source-width-equals-target-columns', ok,
